@@ -34,6 +34,8 @@ PRELUDE_SETUP = [
     'def files-matcher FSM = ! is-empty', 'def program PGM = % prog a', "def text-source TS = 'text source'", 'def files-source FS = { file a.txt }',
     'def files-condition FC = { a.txt }',
     "file f.txt = <<EOF\nline 1\nline 2\nEOF", 'dir d = { file a.txt = "x"\n dir sub = { file b.txt } }', 'copy data.txt',
+    # texts whose last line has no line ending
+    "file nonl.txt = 'line'", 'file nonl2.txt = -contents-of -rel-act f.txt -transformed-by strip -trailing-new-lines',
 ]
 
 CORPUS = [
@@ -92,10 +94,20 @@ CORPUS = [
     ('assert', "exists f.txt : contents ( num-lines == 1+1 && every line : line-num <= 2 )"),
     ('assert', "stdout -transformed-by ( grep x | filter line-num == 1 ) ! is-empty"),
     ('before-assert', "file r2.txt = -stdout-from % gen\n -transformed-by TT"),
+    # transformers applied to texts whose (only / last) line is not terminated
+    ('assert', "contents nonl.txt : -transformed-by replace -preserve-new-lines 'l(i)' '\\1x' equals 'ixne'"),
+    ('assert', "contents nonl.txt : -transformed-by replace 'l(i)' '\\1x' equals 'ixne'"),
+    ('assert', "contents nonl2.txt : -transformed-by replace -at ( line-num == 2 ) -preserve-new-lines 'l(i)' '\\1x' matches -full 'line 1\\nixne 2'"),
+    ('assert', "contents nonl2.txt : -transformed-by ( filter line-num == 2 | replace -preserve-new-lines 'l(i)' '\\1x' ) equals 'ixne 2'"),
+    ('setup', "file r4.txt = -contents-of -rel-act nonl.txt -transformed-by replace -preserve-new-lines 'l(i)' '\\1x'"),
 ]
 
 REPL = ['(', ')', '=', ':', '!', '&&', '||', '|', "'", '"', '@[', ']@', '@[S]@', '@[L]@', '@[P]@', '@[TM]@', 'TM', 'PGM', '@[UNDEFINED]@', '-1', '0x', '1/0', '1//0', '2**64', "int('x')",
-        '1.5', '[', '*', '\\6', '\\g<9>', "'\\6'", "'\\q'", '(?P<n', 'a{4294967296}', '<<EOF', ':>', '-no-such-option', 'é', '\t', '{', '}', '', '\\', '-rel-home', '-rel', '**', 'none', 'n' * 300]
+        '1.5', '[', '*', '\\6', '\\g<9>', "'\\6'", "'\\q'", '(?P<n', 'a{4294967296}', '<<EOF', ':>', '-no-such-option', 'é', '\t', '{', '}', '', '\\', '-rel-home', '-rel', '**', 'none', 'n' * 300,
+        # characters str.isspace() accepts but the tokenizer does not treat as separators
+        '\xa0', '\x0c', '\x0b', '\x1c', '\x85', '\u2028', '\u3000', 'a\xa0b',
+        # integers: too large to display; evaluation errors whose exception arguments are not strings / are missing
+        '10**5000', '-10**5000', '2.0**10000', '{}[1]', "open('/non-existing')", 'next(iter(()))', '[][0]', '1<<(1<<20)<<0 if 0 else 1<<70', "int('9'*5000)"]
 
 
 def tokens_of(line):
@@ -226,7 +238,8 @@ def cases(tier):
 
 
 HEADERS = ['[nophase]', '[setup', 'setup]', '[ setup ]', '[SETUP]', '[setup] x', '[[setup]]', '[]', '[act][assert]']
-RAW = ['', '\n\n\n', '\x00\x01\x02', '﻿[act]\n% atc\n', '[act]\n' + 'x' * 100000, '\r\n[act]\r\n% atc\r\n', '[act]\n% atc\n[assert]\nexit-code == 0' + '\n' * 5000,
+RAW = ['[assert]\n\xa0', '[assert]\n\x0c', '[setup]\ndef string A = 1\n\x0b', '[act]\n% atc\n[cleanup]\n \x1c', '[act]\nprog \xa0', '[act]\n\xa0\n', '[setup]\n\u2028', '[setup]\n\x85\n[act]\n',
+       '', '\n\n\n', '\x00\x01\x02', '﻿[act]\n% atc\n', '[act]\n' + 'x' * 100000, '\r\n[act]\r\n% atc\r\n', '[act]\n% atc\n[assert]\nexit-code == 0' + '\n' * 5000,
        '[setup]\n' + 'def string S%d = x\n' * 3, '#' * 1000, '[act]\n\\', '[setup]\nfile f = <<\n', '[setup]\nfile f = <<EOF', "[setup]\ndef string X = 'a\nb'\n"]
 
 
